@@ -246,7 +246,7 @@ Section Match.
   Definition wallet_simple (path : string) : Prop :=
     forall p0 p1, wallet_parts path = Some (p0, p1) ->
       single_alt p0 /\ single_alt p1 /\
-      (has_suffix_dollar p1 = true -> forall ra, parse p1 = Some [ra] -> ends_anchored ra).
+      (has_end_anchor p1 = true -> forall ra, parse p1 = Some [ra] -> ends_anchored ra).
 
   Definition wallet_covers (path : string) (a : account) : Prop :=
     exists p0 p1 rw ra,
@@ -264,7 +264,7 @@ Section Match.
     destruct (parse p1) as [accs|] eqn:E1; [|discriminate].
     destruct (Hs _ _ Hparts) as (H0 & H1 & Hd). destruct (H0 _ E0) as [rw ->]. destruct (H1 _ E1) as [ra ->].
     assert (Hm : pattern_matches a p = true <-> full_lang (Seq rw (Seq slash ra)) (codes (full_name a))).
-    { destruct (has_suffix_dollar p1) eqn:Ed; injection Hp as <-; unfold pattern_matches; cbn [p_re].
+    { destruct (has_end_anchor p1) eqn:Ed; injection Hp as <-; unfold pattern_matches; cbn [p_re].
       - change (textual_concat [[Bol]; [rw]; [slash]; [ra]]) with (Seq Bol (Seq rw (Seq slash ra))).
         rewrite search_spec. apply anchored_parts_own_dollar. apply Hd; [reflexivity | exact E1].
       - change (textual_concat [[Bol]; [rw]; [slash]; [ra]; [Eol]]) with (Seq Bol (Seq rw (Seq slash (Seq ra Eol)))).
@@ -278,7 +278,7 @@ Section Match.
   Lemma wallet_pattern_total : forall path a, wallet_covers path a -> exists p, wallet_pattern parse path = Some p.
   Proof.
     intros path a (p0 & p1 & rw & ra & Hparts & E0 & E1 & _). unfold wallet_pattern.
-    rewrite Hparts, E0, E1. destruct (has_suffix_dollar p1); eauto.
+    rewrite Hparts, E0, E1. destruct (has_end_anchor p1); eauto.
   Qed.
 
   Lemma wallet_admits_spec : forall paths a,
